@@ -105,9 +105,19 @@ def rand_text(rng, alpha, lo, hi):
     return "".join(rng.choice(alpha) for _ in range(rng.randint(lo, hi)))
 
 
+def prefix_scenario(root):
+    """directories one of which is a prefix of the others: `history -p` must list its own rows only"""
+    ops = []
+    for i, (t, d) in enumerate([("x1", "d1"), ("x2", "d1x"), ("x3", "d1/sub"), ("x4", "it's"), ("x5", "it's2")]):
+        ops.append({"k": "A", "line": t, "status": "0", "ts": 10 + i, "session": "s1", "dir": root + "/" + d})
+    for d in ["d1", "d1x", "d1/sub", "it's", "it's2"]:
+        ops.append({"k": "L", "pattern": "", "s": False, "a": True, "p": True, "limit": 20, "session": "s1", "dir": root + "/" + d})
+    return ops
+
+
 def gen_scenario(rng, root, l2=False):
     """ops: dicts."""
-    dirs_ok = ["d1", "a_b", "axb", "p%q", "日 é", 'q"r', "se;mi --x)"]
+    dirs_ok = ["d1", "d1x", "d1/sub", "a_b", "axb", "p%q", "日 é", 'q"r', "se;mi --x)"]   # d1 is a prefix of two others
     dirs_bad = ["it's", "x|'), ('pwn', 0, 0, 0, 's', 'dir:y", "o'", "a''b", "c'||'d"]
     n = rng.randint(3, 9)
     ops = []
@@ -351,7 +361,7 @@ def layer0(ctx, res):
 def layer1(ctx, res, V, work):
     rng = ctx.rng
     n = 1500 if ctx.thorough else 300
-    scns = [gen_scenario(rng, "/w") for _ in range(n)]
+    scns = [prefix_scenario("/w")] + [gen_scenario(rng, "/w") for _ in range(n)]
     if ctx.replay_ops and ctx.replay_layer == "L1":
         scns = [ctx.replay_ops]
     lines = []
@@ -432,7 +442,7 @@ def layer2(ctx, res, V, work):
     for i in range(n):
         root = os.path.join(work, "l2_%d" % i)
         os.makedirs(root)
-        scns.append(gen_scenario(rng, root, l2=True))
+        scns.append(prefix_scenario(root) if i == 0 else gen_scenario(rng, root, l2=True))
     if ctx.replay_ops and ctx.replay_layer == "L2":
         scns = scns[:1]
         root = os.path.join(work, "l2_0")
